@@ -26,7 +26,8 @@ Offered(kind, p, f) ==
     [] f = "opt"  -> IF kind = "node" THEN TRUE ELSE p \in BaseParams   \* NewBatchNode keeps only NodeOptions
     [] f = "bld"  -> IF kind = "node" THEN TRUE ELSE p # "fb"           \* the batch builder has no fallback setter
 
-ValuesOf(p) == CASE p = "retries" -> {1, 2, 3} [] p = "wait" -> {0, 2} [] p = "conc" -> {0, 2} [] p = "mode" -> {0, 1}   \* 1 = stop
+\* (retries 0: the explicit "no attempt at all" setting; both forms must agree on it too)
+ValuesOf(p) == CASE p = "retries" -> {0, 1, 2, 3} [] p = "wait" -> {0, 2} [] p = "conc" -> {0, 2} [] p = "mode" -> {0, 1}   \* 1 = stop
                  [] OTHER -> {1, 2}     \* ids of the functions installed (0 = none)
 
 Defaults == [retries |-> 1, wait |-> 0, conc |-> 0, mode |-> 0, prep |-> 0, exec |-> 0, post |-> 0, fb |-> 0]
@@ -41,8 +42,9 @@ StepOK(kind, s) == Offered(kind, s.param, s.form) /\ s.val \in ValuesOf(s.param)
 \* (form "inprep": a setting the node's own prep callback applies to the node while it runs - it is the last setting of
 \* all, the getters read before the run do not show it yet, the behaviour of that run does: the retry settings are read
 \* after prep, flyt.go:707-713, the batch settings after prep as well, batch.go:196-210)
-Effective(steps) == SelectSeq(steps, LAMBDA s : s.form = "opt") \o SelectSeq(steps, LAMBDA s : s.form \notin {"opt", "inprep"})
-                    \o SelectSeq(steps, LAMBDA s : s.form = "inprep")
+\* (form "afterrun": a setting made after the node has run once - it is the setting of the next run)
+Effective(steps) == SelectSeq(steps, LAMBDA s : s.form = "opt") \o SelectSeq(steps, LAMBDA s : s.form \notin {"opt", "inprep", "afterrun"})
+                    \o SelectSeq(steps, LAMBDA s : s.form = "afterrun") \o SelectSeq(steps, LAMBDA s : s.form = "inprep")
 
 RECURSIVE ApplyAll(_, _)
 ApplyAll(c, steps) == IF steps = <<>> THEN c ELSE ApplyAll([c EXCEPT ![Head(steps).param] = Head(steps).val], Tail(steps))
@@ -100,14 +102,15 @@ PoolSizeOK(e) == LET eff == IF e.size <= 0 THEN 1 ELSE e.size IN ~e.hung /\ e.ra
 C19_Failing(c, h) ==
   IF c.kind = "pool" THEN (IF \A i \in 1..Len(h) : h[i].ev = "poolsize" => PoolSizeOK(h[i]) THEN {} ELSE {"poolSizeDefault"}) ELSE
   LET all   == StepsOf(h)
-      built == SelectSeq(all, LAMBDA s : s.form # "inprep")
+      built == SelectSeq(all, LAMBDA s : s.form \notin {"inprep", "afterrun"})
       gexp  == Expected(built)                                   \* what the getters show before the node runs
       \* how the node behaves when it runs: with the settings its prep applies, if it has a prep function
       exp   == IF gexp.prep # 0 THEN [Expected(all) EXCEPT !.prep = gexp.prep] ELSE gexp
       probes == SelectSeq(h, LAMBDA e : e.ev = "probe")
       p     == probes[1]
       \* what the probe runs can observe depends on which functions are installed
-      execObservable == IF c.kind = "node" THEN exp.exec # 0 ELSE exp.exec # 0 /\ exp.prep # 0
+      \* (with a retry budget of 0 the exec function never runs: it cannot be observed, and no attempt may be counted)
+      execObservable == exp.retries >= 1 /\ (IF c.kind = "node" THEN exp.exec # 0 ELSE exp.exec # 0 /\ exp.prep # 0)
   IN IF Len(probes) # 1 THEN {"probeMissing"}
      ELSE
        (IF p.panicked THEN {"probePanicked"} ELSE {})
@@ -122,6 +125,7 @@ C19_Failing(c, h) ==
              THEN {"prepValueAsInstalled"} ELSE {})
        \* behaviour of the probe runs: attempts on an always-failing exec, concurrency high-water mark, stop/continue
        \cup (IF execObservable /\ p.attempts # exp.retries THEN {"behaviourRetries"} ELSE {})
+       \cup (IF exp.retries = 0 /\ p.attempts # 0 THEN {"behaviourRetries"} ELSE {})
        \cup (IF c.kind = "batch" /\ execObservable /\ p.hwm # (IF exp.conc > 0 THEN exp.conc ELSE 1) THEN {"behaviourConcurrency"} ELSE {})
        \cup (IF c.kind = "batch" /\ execObservable /\ p.stopped # (exp.mode = 1) THEN {"behaviourErrorHandling"} ELSE {})
 =============================================================================
